@@ -521,6 +521,14 @@ def judge_fault(platform, case, r, clean):
         allowed.add("value")            # wait() answers None / TimeoutExpired for a pid that is not ours
 
     kind = r.kind
+    if mode == "pair" and len(r.fired) == 2 and not pid0rule:
+        # the method went on after the first error (it asked the kernel again): that error was tolerated, and what ends the
+        # call is the second one - a first error that resurfaces hides what really happened (e.g. the process exiting
+        # between a refused direct query and its fall-back)
+        k1, k2 = (fault_class(platform, f) for (_i, _n, f) in r.fired)
+        # (the front end's exe() is the documented exception: "guess from the command line, else raise the original AccessDenied")
+        if k1 == "perm" and k2 in ("nsp", "other") and kind == "AccessDenied" and op != "exe":
+            v("tolerated_first_error_resurfaced_after_second:" + k2)
     if kind in ("NoSuchProcess", "ZombieProcess", "AccessDenied"):
         if r.exc.pid != pid:
             v("error_without_pid", f"exception pid={r.exc.pid!r}")
@@ -1604,6 +1612,18 @@ def run_shard(shard):
             acc.count("native_call_points:" + platform, n)
             for case in fault_cases(platform, opname, pid, n, tier):
                 do_fault_case(platform, case, acc, clean)
+            # call points that exist only *after* an error (fall-back queries, retries): a second error there
+            faults1 = list(FAULTS_POSIX) + FAULTS_MORE + (FAULTS_WIN_EXTRA if platform == "windows" else [])
+            for i in range(n):
+                for fa in faults1:
+                    r1 = run_op(platform, opname, pid=pid, one={i: fa})
+                    n1 = len(r1.faultable)
+                    for j in range(max(n, i + 1), n1):
+                        acc.count("call_points_reached_only_after_an_error")
+                        for fb in faults1:
+                            if fb is not fa:
+                                do_fault_case(platform, dict(k="fault", platform=platform, op=opname, pid=pid, mode="pair", i=i, j=j,
+                                                             faults=[fa, fb], state="live"), acc, clean)
         layer = sorted(o[2:] for o in per_op if o.startswith("L:"))
         extra.update(operations=len(per_op), layer_methods=len(layer), layer_methods_list=layer,
                      layer_methods_skipped=getattr(build_ops, "layer_skipped", []),
